@@ -15,7 +15,7 @@ Theorem parse_expr_reads_through_get : forall ctx fuel y y', same_lookups y y' -
   parse_expr ctx fuel y = parse_expr ctx fuel y'.
 Proof.
   intros ctx fuel y y' H. destruct fuel as [|fuel]; [reflexivity|].
-  cbn [parse_expr]. unfold present. rewrite !H. reflexivity.
+  cbn [parse_expr]. unfold expr_body, present. rewrite !H. reflexivity.
 Qed.
 
 Corollary parse_expr_key_order : forall ctx fuel l l', NoDup (map fst l) -> Permutation l l' ->
@@ -52,7 +52,7 @@ Theorem property_constraints_order : forall ctx fuel rest entries entries' f,
   parse_expr ctx (S fuel) (YMap (("propertyConstraints", YMap entries) :: rest)) = POk f ->
   exists f', parse_expr ctx (S fuel) (YMap (("propertyConstraints", YMap entries') :: rest)) = POk f' /\ rewrite f f'.
 Proof.
-  intros ctx fuel rest entries entries' f Hp Hf. cbn [parse_expr yget assoc] in *. rewrite String.eqb_refl in *.
+  intros ctx fuel rest entries entries' f Hp Hf. cbn [parse_expr] in *. unfold expr_body in *. cbn [yget assoc] in *. rewrite String.eqb_refl in *.
   match type of Hf with pbind (map_p ?pc entries) _ = _ => destruct (map_p pc entries) as [ls| |] eqn:E; try discriminate;
     destruct (map_p_perm pc entries entries' Hp ls E) as [ls' [E' Pl]]; rewrite E' end.
   simpl in *. inversion Hf; subst. eexists. split; [reflexivity|]. apply rw_and_perm. now apply concat_perm.
@@ -64,10 +64,10 @@ Theorem constraint_key_order : forall ctx fuel before path cm cm' after rest,
   parse_expr ctx (S fuel) (YMap (("propertyConstraints", YMap (before ++ (path, YMap cm) :: after)) :: rest))
   = parse_expr ctx (S fuel) (YMap (("propertyConstraints", YMap (before ++ (path, YMap cm') :: after)) :: rest)).
 Proof.
-  intros ctx fuel before path cm cm' after rest Hnd Hp. cbn [parse_expr yget assoc]. rewrite String.eqb_refl.
+  intros ctx fuel before path cm cm' after rest Hnd Hp. cbn [parse_expr]. unfold expr_body. cbn [yget assoc]. rewrite String.eqb_refl.
   assert (E : forall k, assoc k cm = assoc k cm') by (intros; now apply assoc_perm).
   match goal with |- pbind (map_p ?pc _) _ = _ =>
-    assert (Hpc : pc (path, YMap cm) = pc (path, YMap cm')) by (cbv beta iota; unfold present, count_atom; cbn [yget]; rewrite !E; reflexivity);
+    assert (Hpc : pc (path, YMap cm) = pc (path, YMap cm')) by (unfold parse_pc, pc_unsupported, pc_counts, pc_pattern, pc_scalar_set, pc_cmp, pc_qualified, pc_num, pc_datatype, pc_nested, present, count_atom; cbn [yget]; rewrite !E; reflexivity);
     assert (Hm : map_p pc (before ++ (path, YMap cm) :: after) = map_p pc (before ++ (path, YMap cm') :: after))
   end.
   { induction before as [|e before IH]; cbn [app map_p]; [now rewrite Hpc|now rewrite IH]. }
